@@ -170,7 +170,7 @@ def gen_models(rng, flavour):
         used.add((g, n))
         args = {}
         for a in rng.sample(ARG_NAMES, rng.choice([1, 2, 3])):
-            r = rng.random() if flavour not in ("vectors", "fine") else rng.choice([0.1, 0.8, 0.8]) if flavour == "vectors" else 0.1
+            r = rng.random() if flavour not in ("vectors", "fine", "long_expr") else rng.choice([0.1, 0.8, 0.8]) if flavour == "vectors" else rng.choice([0.1, 0.1, 0.8]) if flavour == "long_expr" else 0.1
             args[a] = (rng.randrange(100) if r < 0.5 else rng.randrange(100) / 4 if r < 0.7
                        else [rng.randrange(9), rng.randrange(9)] if r < 0.9 else "word")
         models.append({"group": g, "name": n, "args": args})
@@ -247,6 +247,40 @@ def gen_params(rng, models, mode, flavour, max_runs):
     return params
 
 
+LONG_EXPRS = ["numpy.arange(1, 25)", "numpy.arange(40)", "numpy.linspace(0, 1, 30)", "numpy.arange(3, 36, 1.5)",
+              "numpy.arange(22)*0.5", "numpy.linspace(1, 2, 21)"]
+
+
+def make_long(case, rng):
+    """one numeric model-argument parameter becomes a numpy expression that expands to MORE values than its text has
+    characters; the other parameters keep at most two values (so the product stays small); all enabled"""
+    import numpy
+
+    cands = [p for p in case["params"] if p["key"].startswith("pipeline.") and not p.get("multi")
+             and not isinstance(p["expect"][0], str)]
+    if not cands:
+        return False
+    tgt = rng.choice(cands)
+    for p in case["params"]:
+        p["enabled"] = True
+        if p is tgt:
+            continue
+        if len(p["expect"]) > 2:
+            p["expect"] = p["expect"][:2]
+            p["decl"] = list(p["expect"]) if not isinstance(p["decl"], list) else p["decl"][:2]
+    # at most two other parameters; the long one after a vector-valued one when there is one
+    others = [p for p in case["params"] if p is not tgt][:2]
+    others.sort(key=lambda p: not p.get("multi"))
+    pos = rng.choice([len(others), len(others), 0]) if others else 0
+    expr = rng.choice(LONG_EXPRS)
+    tgt["decl"] = expr
+    tgt["expect"] = [v.item() for v in eval(expr, {"numpy": numpy})]  # noqa: S307
+    assert len(tgt["expect"]) > len(expr)
+    case["params"] = others[:pos] + [tgt] + others[pos:]
+    case["fields"] = sorted({p["key"][len("detector."):] for p in case["params"] if p["key"].startswith("detector.")})
+    return True
+
+
 def gen_table(rng, params):
     en = [p for p in params if p["enabled"]]
     nrows = rng.choice([1, 2, 3, 4, 5])
@@ -279,6 +313,8 @@ def gen_case(rng, mode=None, with_dask=None, flavour=None, max_runs=16):
                          | ({"environment.temperature"} if rng.random() < 0.3 else set())),
         "params": params,
     }
+    if flavour == "long_expr" and mode != "custom":
+        make_long(case, rng)
     if mode == "custom":
         case["table"] = gen_table(rng, params)
         case["extra_cols"] = rng.choice([0, 0, 1, 2])
@@ -361,6 +397,8 @@ def build_observation(case, folder, with_dask=None, outputs=None, pipeline_seed=
 
 def default_of(case, key, _cache={}):
     """configured value of a key (what `processor.get(key)` returns on the generated configuration)"""
+    if key in (case.get("extra_defaults") or {}):
+        return case["extra_defaults"][key]
     if key.startswith("pipeline."):
         _, g, n, _, a = key.split(".")
         for m in case["models"]:
@@ -369,6 +407,8 @@ def default_of(case, key, _cache={}):
         raise KeyError(key)
     if key in (case.get("det_overrides") or {}):
         return case["det_overrides"][key]
+    if key in (case.get("extra_defaults") or {}):  # arguments of models other harnesses add (C06's stateful probes)
+        return case["extra_defaults"][key]
     if "det" not in _cache:
         import pyx
 
@@ -809,6 +849,11 @@ def body(ck: common.Check):
         for wd in (False, True):
             for flav in ("plain", "fine", "vectors", "two_models_same_arg", "same_model_two_groups", "field_vs_arg"):
                 cases.append(("directed", gen_case(rng, mode=mode, with_dask=wd, flavour=flav, max_runs=8)))
+    # numpy expressions that expand to more values than their text has characters (product and sequential mode, both paths)
+    for mode, wd in (("product", False), ("product", False), ("product", True), ("sequential", False)):
+        cases.append(("directed", gen_case(rng, mode=mode, with_dask=wd, flavour="long_expr")))
+    for _ in range(0 if quick else 40):
+        cases.append(("random", gen_case(rng, mode=rng.choice(["product", "product", "sequential"]), flavour="long_expr")))
     for _ in range(40 if quick else 1800):
         cases.append(("random", gen_case(rng, max_runs=12 if quick else 36)))
     answers = LeanDriver("C05").batch([lean_request(c) for _, c in cases])
@@ -863,7 +908,8 @@ def body(ck: common.Check):
             ck.count(f"history:{c['mode']}:{'dask' if wd else 'seq'}:call{k}")
     ck.rule = ("1-4 parameters (keys pairwise different) over stamp-probe arguments and detector fields; scalar int/float/"
                "mixed/string lists, numpy expressions (integer / dyadic with independently computed expectations; tiny magnitudes, long "
-               "mantissas and fractional steps evaluated with numpy in the harness, compared bit for bit), 1-D and 2-D vector values, "
+               "mantissas and fractional steps, and expressions expanding to 20-40 values — more than their text has characters — "
+               "evaluated with numpy in the harness, compared bit for bit), 1-D and 2-D vector values, "
                "enabled/disabled mix; product / sequential / custom (npy and txt tables, extra unused columns); sequential "
                "path and dask path (synchronous scheduler); collision flavours: two models sharing an argument name, one "
                "model name in two groups, detector field vs model argument; non-trivial = at least two runs; distinct by "
